@@ -148,7 +148,8 @@ def check_solver(case, sub="solver"):
 
 def strat_states(tier):
     small = gs.st_state(1, 8, max_word=30, max_rowops=14)
-    big = gs.st_state(9, 30, max_word=70, max_rowops=25)
+    big = st.one_of(gs.st_state(9, 30, max_word=70, max_rowops=25), gs.st_state(9, 30, max_word=70, max_rowops=25),
+                    gs.st_state(62, 70, max_word=140, max_rowops=25))  # beyond 64: integer packing / dtype limits
     sparse = gs.st_sparse_state(5, 9)
     base = st.one_of(small, small, sparse, big)
     return st.tuples(base, gs.st_rowops(29, 10)).map(lambda t: dict(t[0], alt=t[1]))
